@@ -47,6 +47,10 @@
 (* found ones remain as switches for the expected-counterexample configs   *)
 (* (C18_mc_s14.cfg, C18_mc_bkforce.cfg), which explain the reverse seeds.  *)
 (*                                                                         *)
+(* Completeness: the fifth component of a tag tuple; only image H is ever  *)
+(* incomplete (target side repositories hold it with a layer missing); a   *)
+(* copy from the source repairs it, forceRecursive makes a matching target *)
+(* be copied again, a backup copy of a holed image fails with a warning.   *)
 (* Deliberate deviations: an ImageCopy is two steps (read the source       *)
 (* reference, write the tag) - blobs, child manifests and their order are  *)
 (* C03/C04's subject and every copy is taken to be complete; registry      *)
@@ -109,16 +113,23 @@ TgtTagsOf(reg, repo) == {x[3] : x \in {y \in world : y[1] = reg /\ y[2] = repo}}
 keepW == UNCHANGED <<world, puts, nw, bkbad>>
 keepR == UNCHANGED <<conf, plan, phase, mode, before, exitc, nrun>>
 
+\* Image H is held with a layer missing by every target side repository that has it (complete = 0)
+\* until a copy from the source brings the layer along - for all tags of that repository.
+MirrorRepos == {"mirror/r1", "mirror/r2"}
+TargetSide(reg, repo) == reg # "src" \/ repo \in MirrorRepos
+Repair(st, r, img) == IF img = "H" THEN {IF x[1] = r[1] /\ x[2] = r[2] /\ x[4] = "H" THEN <<x[1], x[2], x[3], x[4], 1>> ELSE x : x \in st}
+                      ELSE st
 \* a tag level write reaches a registry: the monitor's obligation O3 is evaluated on the spot
 Write(r, img) ==
-  /\ world' = SetTag(world, r, img, 1)
+  /\ world' = Repair(SetTag(world, r, img, 1), r, img)
   /\ puts' = puts \cup {r}
   /\ nw' = nw + 1
   /\ bkbad' = IF bkbad # "" THEN bkbad ELSE OverwriteBad(conf, before, world, r, img)
 
 Load(s) ==
   /\ conf' = s.conf /\ plan' = s.plan
-  /\ world' = {<<"src", x[1], x[2], x[3], 1>> : x \in s.src} \cup {<<"tgt", x[1], x[2], x[3], 1>> : x \in s.tgt} \cup Bystanders
+  /\ world' = {<<"src", x[1], x[2], x[3], IF x[3] = "H" /\ TargetSide("src", x[1]) THEN 0 ELSE 1>> : x \in s.src}
+               \cup {<<"tgt", x[1], x[2], x[3], IF x[3] = "H" THEN 0 ELSE 1>> : x \in s.tgt} \cup Bystanders
   /\ proc' = [k \in DOMAIN s.conf.entries |-> P0]
   /\ phase' = "idle"
   /\ UNCHANGED <<mode, held, cache, errs, before, puts, nw, exitc, bkbad, nrun>>
@@ -238,8 +249,8 @@ Acquire(k) ==
 
 BkRead(k) ==
   /\ MayStep(k) /\ proc[k].pc = "bkread"
-  /\ LET b == Img(world, TgRef(k)) IN
-     Set(k, IF b = "" THEN [proc[k] EXCEPT !.pc = "cpread"] ELSE [proc[k] EXCEPT !.pc = "bkwrite", !.img = b])
+  /\ LET b == Img(world, TgRef(k)) IN       \* a holed image cannot be copied: "Failed to backup existing image", go on
+     Set(k, IF b = "" \/ Compl(world, TgRef(k)) = 0 THEN [proc[k] EXCEPT !.pc = "cpread"] ELSE [proc[k] EXCEPT !.pc = "bkwrite", !.img = b])
   /\ keepW /\ keepR /\ UNCHANGED <<held, cache, errs>>
 
 BkWrite(k) ==
